@@ -23,6 +23,16 @@
 //!  * "Variance is never negative": variance >= 0 exactly.
 //!  * "the mean always lies within the range": low <= mean <= high exactly (on the reported values).
 //!  A panic inside `update` leaves no summary at all and is reported as a violation of the first rule.
+//!
+//! Added by the hardening rounds:
+//!  * a third alphabet "fine" (values with 18-19 fractional digits, 1e-18 next to 1): a value must be
+//!    taken as it is, not at some coarser resolution;
+//!  * the range VALUE `Range::range()` (the statement lists "range" among the quantities that equal the
+//!    batch value): |range() - (max - min)| <= K*1e-24;
+//!  * "long" layer: the bounded sequences are short (<= 5 / 7), so for every alphabet a family of
+//!    deterministic long sequences (every cyclic walk through the alphabet, forwards and backwards from
+//!    every start, and runs of repeated values) of N = 96 / 400 values is fed as well, the same oracle
+//!    after EVERY update - every dataset length 1..=N is covered for each of them.
 
 use crate::core::{Ctx, Outcome, hash_of};
 use crate::explore::seq::{self, SeqModel, Viol};
@@ -225,6 +235,45 @@ const ALPHA_WIDE: [&str; 9] =
 const ALPHA_CLOSE: [&str; 6] =
     ["100", "100.000000001", "99.999999999", "100.5", "-100", "0.000000001"];
 
+/// Alphabet C: many fractional digits (18-19), a value 18 orders of magnitude below its neighbours.
+const ALPHA_FINE: [&str; 6] =
+    ["2", "-1.5", "0.123456789012345678", "1.000000000000000001", "-0.000000000000000001", "0.3333333333333333333"];
+
+/// A deterministic long sequence over an alphabet of `n` values: the index of the i-th value.
+#[derive(Debug, Clone, Copy)]
+pub enum Pattern {
+    /// start, start+stride, start+2*stride, ... (mod n)
+    Cyclic { start: usize, stride: usize },
+    /// every value `run` times in a row, in alphabet order, cyclically
+    Runs { run: usize },
+}
+
+impl Pattern {
+    fn index(&self, i: usize, n: usize) -> usize {
+        match *self {
+            Pattern::Cyclic { start, stride } => (start + i * stride) % n,
+            Pattern::Runs { run } => (i / run) % n,
+        }
+    }
+    fn label(&self, alpha: &str) -> String {
+        match *self {
+            Pattern::Cyclic { start, stride } => format!("long-{alpha}-cyclic-start{start}-stride{stride}"),
+            Pattern::Runs { run } => format!("long-{alpha}-runs-of-{run}"),
+        }
+    }
+    /// forwards and backwards from every start, plus runs of 5 and 16 equal values
+    fn family(n: usize) -> Vec<Pattern> {
+        let mut v = Vec::new();
+        for start in 0..n {
+            v.push(Pattern::Cyclic { start, stride: 1 });
+            v.push(Pattern::Cyclic { start, stride: n - 1 });
+        }
+        v.push(Pattern::Runs { run: 5 });
+        v.push(Pattern::Runs { run: 16 });
+        v
+    }
+}
+
 /// real object + poison flag (set when `update` panicked; the branch is then cut)
 #[derive(Clone)]
 pub struct St {
@@ -234,6 +283,8 @@ pub struct St {
 
 pub struct M {
     alphabet: Vec<String>,
+    /// None: every sequence over the alphabet; Some: the one long sequence of that pattern
+    pattern: Option<Pattern>,
     /// worst |error|/tolerance seen for sum, mean, variance, std_dev^2 (f64 bits; values are >= 0 so the
     /// bit patterns order like the numbers)
     worst: [AtomicU64; 4],
@@ -242,6 +293,7 @@ pub struct M {
 impl M {
     pub fn new(alpha: &[&str]) -> Self {
         M {
+            pattern: None,
             alphabet: alpha.iter().map(|s| s.to_string()).collect(),
             worst: [AtomicU64::new(0), AtomicU64::new(0), AtomicU64::new(0), AtomicU64::new(0)],
         }
@@ -359,6 +411,20 @@ fn check(m: &M, got: &DataSetSummary, values: &[Decimal], out: &mut Vec<Viol>) {
     if rg.low != min {
         out.push(("C17/batch-equality/range-low".into(), format!("range.low={} expected {min}; {}", rg.low, ctxt())));
     }
+    // the range VALUE (high - low as the summary itself reports it) against max - min of the dataset
+    let range_exact = Rat::new(xs[xs.len() - 1].sub(&xs[0]), den.clone());
+    match crate::core::guarded(|| rg.range()) {
+        Ok(value) => {
+            let (ok, r) = Rat::from_decimal(value).close(&range_exact, &tol_lin);
+            if !ok {
+                out.push((
+                    "C17/batch-equality/range-value".into(),
+                    format!("range()={value} expected max-min={} (error/tolerance={r:e}); {}", max - min, ctxt()),
+                ));
+            }
+        }
+        Err(()) => out.push(("C17/batch-equality/range-value-panicked".into(), format!("Range::range() panicked; {}", ctxt()))),
+    }
     // "Variance is never negative"
     if var < Decimal::ZERO {
         out.push(("C17/variance-non-negative".into(), format!("variance={var}; {}", ctxt())));
@@ -379,8 +445,12 @@ impl SeqModel for M {
     fn init(&self) -> St {
         St { sum: DataSetSummary::default(), poisoned: false }
     }
-    fn alphabet(&self, s: &St, _hist: &[String]) -> Vec<String> {
-        if s.poisoned { vec![] } else { self.alphabet.clone() }
+    fn alphabet(&self, s: &St, hist: &[String]) -> Vec<String> {
+        match (s.poisoned, &self.pattern) {
+            (true, _) => vec![],
+            (false, None) => self.alphabet.clone(),
+            (false, Some(p)) => vec![self.alphabet[p.index(hist.len(), self.alphabet.len())].clone()],
+        }
     }
     fn step(&self, s: &mut St, sym: &String, hist: &[String], out: &mut Vec<Viol>) {
         let x = dec(sym);
@@ -412,45 +482,86 @@ impl SeqModel for M {
 }
 
 pub fn run(ctx: &Ctx) -> Outcome {
-    // the subject is silent unless it panics; keep panic output short
+    use rayon::prelude::*;
     let (len_a, len_b) = ctx.tier.pick((5, 5), (7, 7));
+    let len_c = len_b;
     let ma = M::new(&ALPHA_WIDE);
     let sa = seq::run(ctx, &ma, "wide", len_a);
     let mb = M::new(&ALPHA_CLOSE);
     let sb = seq::run(ctx, &mb, "close", len_b);
+    let mc = M::new(&ALPHA_FINE);
+    let sc = seq::run(ctx, &mc, "fine", len_c);
+
+    // long layer: one deterministic sequence of `long_n` values per (alphabet, pattern); the oracle runs
+    // after every update, so every dataset length 1..=long_n is judged
+    let long_n = ctx.tier.pick(96, 400);
+    let alphas: [(&str, &[&str]); 3] = [("wide", &ALPHA_WIDE), ("close", &ALPHA_CLOSE), ("fine", &ALPHA_FINE)];
+    let jobs: Vec<(&str, &[&str], Pattern)> =
+        alphas.iter().flat_map(|(name, a)| Pattern::family(a.len()).into_iter().map(move |p| (*name, *a, p))).collect();
+    let long: Vec<(seq::SeqStats, Value)> = jobs
+        .par_iter()
+        .map(|(name, alpha, p)| {
+            let mut m = M::new(alpha);
+            m.pattern = Some(*p);
+            let st = seq::run(ctx, &m, &p.label(name), long_n);
+            (st, m.worst_json())
+        })
+        .collect();
+    let long_steps: u64 = long.iter().map(|(s, _)| s.steps).sum();
+    let long_distinct: usize = long.iter().map(|(s, _)| s.distinct_final).sum();
+    let worst_of = |key: &str| long.iter().map(|(_, w)| w[key].as_f64().unwrap_or(0.0)).fold(0.0f64, f64::max);
+    let long_worst = json!({"sum": worst_of("sum"), "mean": worst_of("mean"), "variance": worst_of("variance"), "std_dev_squared": worst_of("std_dev_squared")});
 
     let samples = vec![
         json!({"alphabet": "wide", "seq": ["1000000000", "0.000000001", "-1000000000", "0.3333333333"]}),
         json!({"alphabet": "close", "seq": ["100", "100.000000001", "99.999999999"]}),
+        json!({"alphabet": "fine", "seq": ["1.000000000000000001", "-0.000000000000000001", "0.3333333333333333333"]}),
     ];
     Outcome {
         level: "exploration",
         coverage: json!({
-            "evaluations": sa.steps + sb.steps,
-            "sequences": sa.sequences + sb.sequences,
-            "distinct_nontrivial": sa.distinct_final + sb.distinct_final,
+            "evaluations": sa.steps + sb.steps + sc.steps + long_steps,
+            "sequences": sa.sequences + sb.sequences + sc.sequences + long.len() as u64,
+            "distinct_nontrivial": sa.distinct_final + sb.distinct_final + sc.distinct_final + long_distinct,
             "exhaustive": true,
             "max_len_wide": len_a,
             "max_len_close": len_b,
+            "max_len_fine": len_c,
             "alphabet_wide": ALPHA_WIDE,
             "alphabet_close": ALPHA_CLOSE,
+            "alphabet_fine": ALPHA_FINE,
             "per_alphabet": [
                 {"alphabet": "wide", "sequences": sa.sequences, "oracle_evaluations": sa.steps, "distinct_final_summaries": sa.distinct_final, "worst_error_over_tolerance": ma.worst_json()},
                 {"alphabet": "close", "sequences": sb.sequences, "oracle_evaluations": sb.steps, "distinct_final_summaries": sb.distinct_final, "worst_error_over_tolerance": mb.worst_json()},
+                {"alphabet": "fine", "sequences": sc.sequences, "oracle_evaluations": sc.steps, "distinct_final_summaries": sc.distinct_final, "worst_error_over_tolerance": mc.worst_json()},
             ],
-            "rule": "every sequence (hence every order of every multiset) of length <= max_len over the alphabet fed to the real DataSetSummary::update; after every update count/range exact, sum/mean within K*1e-24, variance within K^2*1e-24 of exact big-integer batch formulas over the sorted multiset (K = data scale), std_dev^2 vs exact variance, variance >= 0, low <= mean <= high",
+            "long_sequences": {
+                "values_per_sequence": long_n, "sequences": long.len(), "oracle_evaluations": long_steps, "distinct_summaries": long_distinct,
+                "patterns": "per alphabet: cyclic walk forwards and backwards from every start value, runs of 5 and of 16 equal values",
+                "worst_error_over_tolerance": long_worst,
+            },
+            "rule": "every sequence (hence every order of every multiset) of length <= max_len over each of three alphabets, and a family of long deterministic sequences, fed to the real DataSetSummary::update; after every update count/range bounds exact, sum/mean/range() within K*1e-24, variance within K^2*1e-24 of exact big-integer batch formulas over the sorted multiset (K = data scale), std_dev^2 vs exact variance, variance >= 0, low <= mean <= high",
             "samples": samples,
         }),
         assumptions: vec![
-            "values are taken from two fixed alphabets (magnitudes 1e-9 .. 1e9, <= 10 fractional digits); Decimal overflow behaviour is not part of the property".into(),
-            "'within decimal rounding' is read as an absolute error of at most K*1e-24 (K^2*1e-24 for squared quantities), K = max(1, ceil(max|x|))".into(),
+            "values are taken from three fixed alphabets (magnitudes 1e-18 .. 1e9, <= 19 fractional digits); Decimal overflow behaviour is not part of the property".into(),
+            "'within decimal rounding' is read as an absolute error of at most K*1e-24 (K^2*1e-24 for squared quantities), K = max(1, ceil(max|x|)), also for the long sequences (measured worst error/tolerance in the evidence)".into(),
+            "the long layer is exhaustive over dataset lengths 1..=N for its fixed patterns, not over all sequences of that length".into(),
         ],
     }
 }
 
+fn alphabet_of(label: Option<&str>) -> &'static [&'static str] {
+    match label {
+        Some(l) if l.contains("close") => &ALPHA_CLOSE,
+        Some(l) if l.contains("fine") => &ALPHA_FINE,
+        _ => &ALPHA_WIDE,
+    }
+}
+
 pub fn replay(ctx: &Ctx, case: &Value) {
-    let alpha: &[&str] = if case["label"].as_str() == Some("close") { &ALPHA_CLOSE } else { &ALPHA_WIDE };
-    let m = M::new(alpha);
+    // a replay feeds the recorded values themselves; the alphabet only documents where they came from
+    let m = M::new(alphabet_of(case["label"].as_str()));
     for (sig, detail) in seq::replay(&m, case) {
         ctx.violate(sig, detail, case.clone());
     }
